@@ -64,7 +64,11 @@ class ScaleMixtureNormal(CallableModel):
         )
 
     def _sample_shape(self) -> Size:
-        return self.x.tensor.shape[:-1]
+        shapes = [self.x.tensor.shape[:-1]]
+        for p in (self.loc, self.gobal_scale, self.local_scale, self.slab):
+            if isinstance(p, AbstractParameter):
+                shapes.append(p.tensor.shape[:-1])
+        return max(shapes, key=len)
 
     def handle_model_changed(self, model, obj, index) -> None:
         pass
